@@ -38,6 +38,7 @@ def run(ctx) -> None:
     ctx.reuse("C06.wiring", c16.override_set)
     ctx.reuse("C06.step-guard", c03.step_guard_validator)
     ctx.reuse("C06.step-guard", c03.step_guard_wiring)
+    ctx.reuse("C06.step-guard", c03.step_guard_evo)
     from . import c02
 
     ctx.reuse("C06.step-guard", c02.no_swallow)
